@@ -5,6 +5,7 @@ Open Scope string_scope.
 Definition reg : registry := [
   ("interp", run2 interp);
   ("generalize", run2 generalize);
-  ("specialize", run3 specialize_entry)
+  ("specialize", run3 specialize_entry);
+  ("specialize_commands", run3 specialize_commands)
 ].
 Definition fv_entry := dispatch reg.
